@@ -31,7 +31,7 @@ def run_group(ck, pid, init, want, cover):
                              "EmitForms == TRUE\n====\n" % (mod, init, tla_sets))
     mixed = init.startswith("InitMixed")
     cfg = write_cfg(os.path.join(ck.tmp, mod + ".cfg"),
-                    constants={"Forms": "<- FormDefs", "DevChoices": "<- TheDevs", "MixTokens": 60 if mixed else 0,
+                    constants={"Forms": "<- FormDefs", "PageXO": "<- PageXODef", "DevChoices": "<- TheDevs", "MixTokens": 60 if mixed else 0,
                                "MixPool": "<- MixPoolAll" if mixed else "<- NoPool"},
                     init="TheInit", next="Next", invariants=["DevCtmInSync", "NoError"],
                     properties=["NoResidue", "QRestores", "FormTransparent", "BadOperandsFrame", "FrameOK"], constraints=["EmitTerminal"])
@@ -197,7 +197,13 @@ def _forms():
            N(3), N(0), N(0), N(3), N(0), N(0), Op("cm")]
     fm2 = [N(0), N(1), N(0), Op("rg"), N(2), Op("w"), Op("q"), Op("BT"), Nm("F1"), N(20), Op("Tf"), N(2), Op("Tc"), S(b"BA"), Op("Tj"),
            Op("ET"), N(1), N(1), Op("m"), N(4), N(1), Op("l"), Op("S")]
-    return {"Fm1": {"m": [2, 0, 0, 2, 10, 10], "body": fm1}, "Fm2": {"m": [1, 0, 0, 1, 0, 0], "body": fm2}}
+    fm3 = [Op("BT"), Nm("F1"), N(10), Op("Tf"), S(b"B"), Op("Tj"), Op("ET"), Nm("Fm1"), Op("Do"), Nm("Fm2"), Op("Do"),
+           Op("BT"), Nm("F1"), N(10), Op("Tf"), S(b"A"), Op("Tj"), Op("ET")]
+    fm4 = [N(1), N(0), N(0), Op("rg"), Op("BT"), Nm("F1"), N(10), Op("Tf"), S(b"AB"), Op("Tj"), Op("ET")]
+    return {"Fm1": {"m": [2, 0, 0, 2, 10, 10], "body": fm1, "own": True, "xo": {}},
+            "Fm2": {"m": [1, 0, 0, 1, 0, 0], "body": fm2, "own": False, "xo": {}},
+            "Fm3": {"m": [1, 0, 0, 1, 5, 0], "body": fm3, "own": True, "xo": {"Fm1": "Fm4"}},
+            "Fm4": {"m": [1, 0, 0, 1, 0, 7], "body": fm4, "own": False, "xo": {}, "page": False}}
 
 
 FORMS = _forms()
@@ -241,6 +247,13 @@ def check_forms_transcription():
         mv = [1, 0, 0, 1, 0, 0] if mm.group(1) == "Ident" else [int(x) for x in re.findall(r"-?\d+", mm.group(1))]
         if mv != f["m"]:
             raise MachineryError("harness copy of form %s matrix differs" % name)
+        own = re.search(r"own \|-> (TRUE|FALSE)", seg).group(1) == "TRUE"
+        xo = dict(re.findall(r'(\w+) \|-> "(\w+)"', re.search(r"xo \|-> (<<>>|\[[^\]]*\])", seg).group(1)))
+        if own != f["own"] or xo != f["xo"]:
+            raise MachineryError("harness copy of form %s resources differ" % name)
+    pm = dict(re.findall(r'(\w+) \|-> "(\w+)"', re.search(r"PageXODef == \[(.*?)\]", src).group(1)))
+    if pm != {k: k for k, f in FORMS.items() if f.get("page", True)}:
+        raise MachineryError("harness copy of the page's XObject dictionary differs from PageXODef")
 
 
 TRACE_SPEC = os.path.join(SPECS, "interp", "ContentInterpTrace.tla")
